@@ -408,8 +408,14 @@ func runC18Case(c cfg, seed uint64, f fault, keys map[string]struct{}) (reached 
 				if verdictStuck(v) {
 					viol("victim connection was not closed", fmt.Sprintf("connection %d (fd %d) is still open: no OnClose after the failed %s; %s", victim.tok, victim.fd, vsys.CallName(f.call), v))
 				} else {
-					// the loop is busy: is it spinning on this connection?
-					viol("victim connection was not closed", fmt.Sprintf("connection %d (fd %d) is still open 20s after the failed %s and the loops are not idle (%s)", victim.tok, victim.fd, vsys.CallName(f.call), v))
+					// the loops are not idle: spinning (a state that cannot end by itself) or merely slow?
+					c1 := shimCalls()
+					time.Sleep(2 * time.Second)
+					if !closedOnce() && shimCalls()-c1 > 20000 {
+						viol("victim connection was not closed", fmt.Sprintf("connection %d (fd %d) is still open 20s after the failed %s and the loops are spinning: %d system calls in 2s (%s)", victim.tok, victim.fd, vsys.CallName(f.call), shimCalls()-c1, v))
+					} else if !closedOnce() {
+						res.Inconc("c18 %s %s: victim not closed after 20s, loops busy but not spinning (%s)", c, f, v)
+					}
 				}
 			} else if victim.closeErr == nil {
 				viol("victim OnClose carried a nil error", fmt.Sprintf("connection %d was closed after the failed %s but OnClose reported no error", victim.tok, vsys.CallName(f.call)))
